@@ -826,7 +826,7 @@ def _writeGlyphToBytes(
     if formatVersion.major >= 2 and anchors:
         _writeAnchors(glyphObject, root, identifiers, validate)
     # outline
-    if drawPointsFunc is not None:
+    if drawPointsFunc is not None or (formatVersion.major == 1 and anchors):
         outline = etree.SubElement(root, "outline")
         pen = GLIFPointPen(
             outline,
@@ -834,7 +834,8 @@ def _writeGlyphToBytes(
             identifiers=identifiers,
             validate=validate,
         )
-        drawPointsFunc(pen)
+        if drawPointsFunc is not None:
+            drawPointsFunc(pen)
         if formatVersion.major == 1 and anchors:
             _writeAnchorsFormat1(pen, anchors, validate)
         # prevent lxml from writing self-closing tags
